@@ -99,8 +99,8 @@ Theorem raw_c_exact k l o r : short l -> raw_c k l = Ok o r ->
         match k with
         | RawAny => b = pre
         | RawS => exists ds, all_digits ds /\ pre = ds ++ ch_colon :: b
-        | RawL => exists c0 cl, ch_l <= c0 /\ pre = c0 :: b ++ [cl]
-        | RawM => exists c0 cl, ch_d <= c0 /\ pre = c0 :: b ++ [cl]
+        | RawL => exists cl, pre = ch_l :: b ++ [cl]
+        | RawM => exists cl, pre = ch_d :: b ++ [cl]
         end
     end.
 Proof.
@@ -124,27 +124,103 @@ Proof.
       rewrite Hac. intros H; inversion H; subst. split; [reflexivity|].
       exists (ds ++ ch_colon :: s). split; [rewrite <- Epre; reflexivity|]. exists ds. split; [exact Hds|reflexivity].
     + intros H; inversion H; subst. split; [reflexivity|]. exists pre. split; [reflexivity|exact I].
-  - destruct ((2 <=? N.of_nat (length pre)) && (ch_l <=? hd 0 pre)) eqn:Hd; intros H; inversion H; subst;
+  - destruct ((2 <=? N.of_nat (length pre)) && (hd 0 pre =? ch_l)) eqn:Hd; intros H; inversion H; subst;
       (split; [reflexivity|]); exists pre; (split; [reflexivity|]); [|exact I].
     apply andb_true_iff in Hd. destruct Hd as [Hsz Hc].
-    destruct (strip_ends_spec pre) as (c0 & cl & Ep); [lia|]. exists c0, cl. split; [|exact Ep].
-    rewrite Ep in Hc. cbn [hd] in Hc. lia.
-  - destruct ((2 <=? N.of_nat (length pre)) && (ch_d <=? hd 0 pre)) eqn:Hd; intros H; inversion H; subst;
+    destruct (strip_ends_spec pre) as (c0 & cl & Ep); [lia|]. exists cl.
+    rewrite Ep in Hc. cbn [hd] in Hc. apply N.eqb_eq in Hc. rewrite <- Hc. exact Ep.
+  - destruct ((2 <=? N.of_nat (length pre)) && (hd 0 pre =? ch_d)) eqn:Hd; intros H; inversion H; subst;
       (split; [reflexivity|]); exists pre; (split; [reflexivity|]); [|exact I].
     apply andb_true_iff in Hd. destruct Hd as [Hsz Hc].
-    destruct (strip_ends_spec pre) as (c0 & cl & Ep); [lia|]. exists c0, cl. split; [|exact Ep].
-    rewrite Ep in Hc. cbn [hd] in Hc. lia.
+    destruct (strip_ends_spec pre) as (c0 & cl & Ep); [lia|]. exists cl.
+    rewrite Ep in Hc. cbn [hd] in Hc. apply N.eqb_eq in Hc. rewrite <- Hc. exact Ep.
 Qed.
 
-(* the raw_map view is handed out for values that are not dictionaries: is_raw_map tests ">= 'd'" *)
-Theorem raw_map_type_refuted :
-  exists l b r, raw_c RawM l = Ok (Some b) r /\ hd 0 l <> ch_d /\
-                sm_read [(0, [107; 42; 77])] (ch_d :: [49; 58; 107] ++ l ++ [ch_e]) = Ok [Some (SRaw RawM b)] [].
-Proof. exists [105; 53; 101], [53], []. repeat split; try (vm_compute; reflexivity). discriminate. Qed.
+(* a container is closed by its own 'e': with a non-empty stack the skip loop stops right after an 'e' *)
+Lemma skip_loop_close : forall f b st l u r, skip_loop f (b :: st) l = Ok u r -> exists pre, l = pre ++ ch_e :: r.
+Proof.
+  induction f as [|f IH]; intros b st l u r H; [discriminate|].
+  cbn [skip_loop] in H. destruct l as [|c l']; [discriminate|].
+  destruct (N.eqb_spec c ch_e) as [->|Hce].
+  { destruct st as [|b' st''].
+    - inversion H; subst. exists []. reflexivity.
+    - apply IH in H. destruct H as (p & ->). exists (ch_e :: p). reflexivity. }
+  set (ak := match b :: st with
+             | true :: _ => match c_string (c :: l') with
+                            | Ok _ rest => Ok tt rest
+                            | Reject => Reject | Fault => Fault | OutOfFuel => OutOfFuel
+                            end
+             | _ => Ok tt (c :: l')
+             end) in H.
+  assert (Hak : forall x lk, ak = Ok x lk -> exists p, c :: l' = p ++ lk).
+  { unfold ak. intros x lk E. destruct b.
+    - destruct (c_string (c :: l')) as [k rest| | |] eqn:Ec; try discriminate. inversion E; subst.
+      apply c_string_suffix in Ec. destruct Ec as (ds & _ & ->). exists (ds ++ ch_colon :: k).
+      rewrite <- app_assoc. reflexivity.
+    - inversion E; subst. exists []. reflexivity. }
+  destruct ak as [x lk| | |]; try discriminate. destruct (Hak _ _ eq_refl) as (p & Ep). rewrite Ep.
+  assert (Hfin : forall q, (exists p', lk = p' ++ ch_e :: q) -> exists pre, p ++ lk = pre ++ ch_e :: q).
+  { intros q (p' & ->). exists (p ++ p'). rewrite app_assoc. reflexivity. }
+  destruct lk as [|c1 l1]; [destruct b; discriminate|].
+  destruct (c1 =? ch_i).
+  { destruct (skip_int l1) as [u' rest| | |] eqn:Ei; try discriminate.
+    apply skip_int_suffix in Ei. destruct Ei as (pi & Epi).
+    apply IH in H. destruct H as (p2 & Ep2). apply Hfin. exists (c1 :: pi ++ p2).
+    rewrite Epi, Ep2. cbn [app]. rewrite <- app_assoc. reflexivity. }
+  destruct ((c1 =? ch_l) || (c1 =? ch_d)).
+  { destruct (_ <=? _); [discriminate|]. apply IH in H. destruct H as (p2 & Ep2).
+    apply Hfin. exists (c1 :: p2). rewrite Ep2. reflexivity. }
+  destruct (c_string (c1 :: l1)) as [k rest| | |] eqn:Ec; try discriminate.
+  apply c_string_suffix in Ec. destruct Ec as (ds & _ & Ec).
+  apply IH in H. destruct H as (p2 & Ep2). apply Hfin. exists (ds ++ ch_colon :: k ++ p2).
+  rewrite Ec, Ep2, <- !app_assoc. cbn [app]. rewrite <- app_assoc. reflexivity.
+Qed.
+
+Lemma skip_c_container c l1 u r : (c = ch_l \/ c = ch_d) -> skip_c (c :: l1) = Ok u r ->
+  exists pre, l1 = pre ++ ch_e :: r.
+Proof.
+  intros Hc. unfold skip_c. generalize (S (length (c :: l1))). intros f. cbn [skip_loop].
+  assert (E : (c =? ch_e) = false /\ (c =? ch_i) = false /\ ((c =? ch_l) || (c =? ch_d)) = true)
+    by (destruct Hc as [->| ->]; repeat split; reflexivity).
+  destruct E as (E1 & E2 & E3). rewrite E1, E2, E3.
+  change (skip_stack_limit <=? N.of_nat (length (@nil bool)) + 1) with false. cbv iota.
+  apply skip_loop_close.
+Qed.
+
+(* Raw views have the right type and are exactly the value's bytes: the string view is the content of
+   a string, the list view the bytes between 'l' and its closing 'e', the map view those between 'd'
+   and its closing 'e' (after fix 100e504: == instead of >= in raw_bencode::is_raw_list/is_raw_map) *)
+Theorem raw_type_exact k l b r : short l -> raw_c k l = Ok (Some b) r ->
+  skip_c l = Ok tt r /\
+  match k with
+  | RawAny => l = b ++ r
+  | RawS => exists ds, all_digits ds /\ l = ds ++ ch_colon :: b ++ r
+  | RawL => l = ch_l :: b ++ ch_e :: r
+  | RawM => l = ch_d :: b ++ ch_e :: r
+  end.
+Proof.
+  intros Hs H. destruct (raw_c_exact k l (Some b) r Hs H) as (Hk & pre & El & Hp). split; [exact Hk|].
+  destruct k.
+  - subst. reflexivity.
+  - destruct Hp as (ds & Hd & ->). exists ds. split; [exact Hd|]. rewrite El, <- app_assoc. reflexivity.
+  - destruct Hp as (cl & ->). rewrite El in Hk. cbn [app] in Hk.
+    destruct (skip_c_container ch_l _ _ _ (or_introl eq_refl) Hk) as (p & Ep).
+    rewrite <- app_assoc in Ep. cbn [app] in Ep.
+    assert (E2 : b ++ [cl] = p ++ [ch_e]).
+    { apply (app_inv_tail r). rewrite <- !app_assoc. cbn [app]. exact Ep. }
+    apply app_inj_tail in E2. destruct E2 as [-> ->]. rewrite El. cbn [app]. rewrite <- app_assoc. reflexivity.
+  - destruct Hp as (cl & ->). rewrite El in Hk. cbn [app] in Hk.
+    destruct (skip_c_container ch_d _ _ _ (or_intror eq_refl) Hk) as (p & Ep).
+    rewrite <- app_assoc in Ep. cbn [app] in Ep.
+    assert (E2 : b ++ [cl] = p ++ [ch_e]).
+    { apply (app_inv_tail r). rewrite <- !app_assoc. cbn [app]. exact Ep. }
+    apply app_inj_tail in E2. destruct E2 as [-> ->]. rewrite El. cbn [app]. rewrite <- app_assoc. reflexivity.
+Qed.
 
 (* ---- unknown keys: the value is skipped exactly, nothing else changes *)
 Definition key_unknown (tbl : ktable) (st : smst) (rk : bytes) : Prop :=
   (max_key + two64 - top_key st) mod two64 <= N.of_nat (length rk) \/
+  existsb is_not_key_char rk = true \/
   exists b1 b2 len,
     buf_write (s_cur st) (N.to_nat (top_key st)) rk = Some b1 /\
     set_nth b1 (N.to_nat (top_key st + N.of_nat (length rk))) 0 = Some b2 /\
@@ -157,30 +233,14 @@ Theorem unknown_keys_skipped_exactly tbl f st l rk rest u rest' :
 Proof.
   intros He Hc Hu Hk. cbn [sm_loop]. destruct l as [|c l']; [discriminate|]. cbn [hd] in He.
   destruct (N.eqb_spec c ch_e); [congruence|]. rewrite Hc.
-  destruct Hu as [Hlong|(b1 & b2 & len & E1 & E2 & E3 & E4)].
+  destruct Hu as [Hlong|[Hsp|(b1 & b2 & len & E1 & E2 & E3 & E4)]].
   - destruct (N.leb_spec ((max_key + two64 - top_key st) mod two64) (N.of_nat (length rk))); [|lia].
-    rewrite Hk. exists (s_cur st). destruct st; reflexivity.
-  - destruct (_ <=? _).
+    cbn [orb]. rewrite Hk. exists (s_cur st). destruct st; reflexivity.
+  - rewrite Hsp, orb_true_r. rewrite Hk. exists (s_cur st). destruct st; reflexivity.
+  - destruct (_ || _).
     + rewrite Hk. exists (s_cur st). destruct st; reflexivity.
     + rewrite E1, E2, E3, E4, Hk. exists b2. reflexivity.
 Qed.
-
-(* ---- faithfulness witnesses: what the reader stores is NOT always what the input denotes *)
-
-(* an input key with an embedded NUL matches the table key it is truncated to (C-string semantics of
-   current_key): "d3:v\0x1:ae" fills the entry of "v" of the real extension-handshake table *)
-Theorem static_map_key_exact_refuted :
-  exists l e, table_ok ext_handshake = true /\
-    sm_read ext_handshake l = Ok e [] /\ nth 6 e None = Some (SObj (VStr [97]) false) /\
-    nth_error ext_handshake 6 = Some (6, [118]) /\
-    l = [100; 51; 58; 118; 0; 120; 49; 58; 97; 101].
-Proof. eexists; eexists. repeat split; vm_compute; reflexivity. Qed.
-
-(* an input key spelling the table's path syntax literally reaches the nested entry: "d9:m::ut_pexi1ee" *)
-Theorem static_map_key_alias_refuted :
-  exists l e, sm_read ext_handshake l = Ok e [] /\ nth 2 e None = Some (SObj (VInt 1) false) /\
-    l = [100; 57; 58; 109; 58; 58; 117; 116; 95; 112; 101; 120; 105; 49; 101; 101].
-Proof. eexists; eexists. repeat split; vm_compute; reflexivity. Qed.
 
 (* ---- faithfulness at segment level: every stored value is read from a segment of the input and
    is what that segment denotes (plain entries: the liberal bencode relation `denotes` of
@@ -190,8 +250,8 @@ Definition seg_here (vb : bytes) (sv : sval) : Prop :=
   | SObj v _ => denotes vb v
   | SRaw RawAny b => b = vb
   | SRaw RawS b => exists ds, all_digits ds /\ vb = ds ++ ch_colon :: b
-  | SRaw RawL b => exists c0 cl, ch_l <= c0 /\ vb = c0 :: b ++ [cl]
-  | SRaw RawM b => exists c0 cl, ch_d <= c0 /\ vb = c0 :: b ++ [cl]
+  | SRaw RawL b => vb = ch_l :: b ++ [ch_e]
+  | SRaw RawM b => vb = ch_d :: b ++ [ch_e]
   end.
 
 Definition seg_of (L : bytes) (sv : sval) : Prop :=
@@ -218,9 +278,14 @@ Lemma read_value_spec raw l o r : small l -> read_value raw l = Ok o r ->
   exists vb, l = vb ++ r /\ match o with Some sv => seg_here vb sv | None => True end.
 Proof.
   intros Hs. unfold read_value. destruct raw as [k|].
-  - destruct (raw_c k l) as [[b|] rest| | |] eqn:E; try discriminate; intros H; inversion H; subst;
-      destruct (raw_c_exact _ _ _ _ (small_short _ Hs) E) as (_ & pre & -> & Hp); exists pre; (split; [reflexivity|]); [|exact I].
-    destruct k; cbn [seg_here]; exact Hp.
+  - destruct (raw_c k l) as [[b|] rest| | |] eqn:E; try discriminate; intros H; inversion H; subst.
+    + destruct (raw_type_exact _ _ _ _ (small_short _ Hs) E) as (_ & Hp). destruct k; cbn [seg_here].
+      * exists b. split; [exact Hp|reflexivity].
+      * destruct Hp as (ds & Hd & ->). exists (ds ++ ch_colon :: b). split; [rewrite <- app_assoc; reflexivity|].
+        exists ds. split; [exact Hd|reflexivity].
+      * exists (ch_l :: b ++ [ch_e]). split; [rewrite Hp; cbn [app]; rewrite <- app_assoc; reflexivity|reflexivity].
+      * exists (ch_d :: b ++ [ch_e]). split; [rewrite Hp; cbn [app]; rewrite <- app_assoc; reflexivity|reflexivity].
+    + destruct (raw_c_exact _ _ _ _ (small_short _ Hs) E) as (_ & pre & -> & _). exists pre. split; [reflexivity|exact I].
   - destruct (decode_c l) as [[v fl] rest| | |] eqn:E; try discriminate. intros H; inversion H; subst.
     destruct (decode_c_faithful _ _ _ _ Hs E) as (pre & -> & Hd). exists pre. split; [reflexivity|exact Hd].
 Qed.
@@ -301,7 +366,7 @@ Proof.
   { intros st' Hst' H'. destruct (skip_c rest) as [u rest'| | |] eqn:Ek; try discriminate.
     apply skip_c_suffix in Ek. destruct Ek as (p & Ep). rewrite Ep in Hsr.
     eapply IH; [exact H'|rewrite Hst'; exact He|eapply suffix_app; exact Hsr]. }
-  destruct (_ <=? _); [apply (Hskip st eq_refl H)|].
+  destruct (_ || _); [apply (Hskip st eq_refl H)|].
   destruct (buf_write _ _ rk) as [b1|]; [|discriminate].
   destruct (set_nth b1 _ 0) as [b2|]; [|discriminate].
   destruct (c_strlen b2) as [len|]; [|discriminate].
